@@ -40,6 +40,7 @@ INTERPRETED_DEPS = {
     "xdsl.ir.affine": XDSL_ROOT + "/xdsl/ir/affine/__init__.py",
     "xdsl.ir.affine.affine_expr": XDSL_ROOT + "/xdsl/ir/affine/affine_expr.py",
     "xdsl.ir.affine.affine_map": XDSL_ROOT + "/xdsl/ir/affine/affine_map.py",
+    "xdsl.utils.comparisons": XDSL_ROOT + "/xdsl/utils/comparisons.py",
 }
 
 
